@@ -289,6 +289,9 @@ func (env *Env) ident(name string) Val {
 	if env.fr != nil {
 		for fr := env.fr; fr != nil; fr = fr.parent {
 			if c, ok := fr.names[name]; ok {
+				if _, live := st.cells[c]; !live && !c.arr {
+					efail("variable %q is not declared on this path", name)
+				}
 				return e.load(st, &Loc{Kind: LCell, Cell: c, Root: c.T, T: c.T})
 			}
 			if l, ok := fr.heapNames[name]; ok {
@@ -735,8 +738,12 @@ func (env *Env) call(x *Expr) Val {
 			efail("defined(name)")
 		}
 		for fr := env.fr; fr != nil; fr = fr.parent {
-			if _, ok := fr.names[x.Args[0].Name]; ok {
-				return boolVal("true")
+			if c, ok := fr.names[x.Args[0].Name]; ok {
+				// the variable must have been declared on THIS path, not merely on an earlier explored one
+				if _, live := st.cells[c]; live {
+					return boolVal("true")
+				}
+				return boolVal("false")
 			}
 			if _, ok := fr.heapNames[x.Args[0].Name]; ok {
 				return boolVal("true")
